@@ -337,6 +337,36 @@ where
     }
 //@end
 
+//@extract de::Deserializer::skip_next_tree#ol | src/de/mod.rs :: impl<'de, R, E> Deserializer<'de, R, E> where R: XmlRead<'de>, E: EntityResolver, :: fn skip_next_tree | serves=C20,C07 features=serialize,overlapped-lists
+    fn skip_next_tree(&mut self) -> (r: Result<(), DeError>)
+        // only called when the next event is a Start
+        requires old(self).qwf(), old(self).pending().len() > 0 ==> old(self).pending()[0] is Start
+        ensures final(self).qwf(), final(self).held() == old(self).held(), final(self).limit == old(self).limit,
+            // C20: an element that is dropped (`xsi:nil`) is dropped from the events still to be delivered -- replayed events
+            // first, then the reader's -- whatever part of it had been buffered by an earlier skip
+            r is Ok ==> old(self).pending().len() > 0,
+            r is Ok ==> (old(self).pending()[0] matches DeEvent::Start(s)
+                && close_idx(old(self).pending().subrange(1, old(self).pending().len() as int), s.buf@.subrange(0, s.name_len as int), 0) matches Some(k)
+                && final(self).pending() == old(self).pending().subrange(k + 2, old(self).pending().len() as int)),
+    {
+        let DeEvent::Start(start) = self.next()? else {
+            unreachable!()
+        };
+        let name = start.name();
+        proof {
+            let p = old(self).pending();
+            let t = p.subrange(1, p.len() as int);
+            assert(p[0] == DeEvent::Start(start));
+            assert(self.pending() == t);
+            lemma_close_split(t, name.0@, 0, 0);
+            assert forall|j: int| 1 <= j <= t.len() implies #[trigger] t.subrange(j, t.len() as int) == p.subrange(j + 1, p.len() as int) by {
+                assert(t.subrange(j, t.len() as int) =~= p.subrange(j + 1, p.len() as int));
+            }
+        }
+        self.read_to_end(name)
+    }
+//@end
+
 //@extract de::Deserializer::skip | src/de/mod.rs :: impl<'de, R, E> Deserializer<'de, R, E> where R: XmlRead<'de>, E: EntityResolver, :: fn skip | serves=C20 features=serialize,overlapped-lists
     #[verifier::loop_isolation(false)]
     fn skip(&mut self) -> (r: Result<(), DeError>)
